@@ -113,8 +113,9 @@ func c06Monitor(st *engine.Step) {
 			if o.Req.Tag.PID == U2 {
 				own = true
 			}
-			if sec := st.Pre.Truth.ByVal("rm", o.CookBefore["rm"]); sec != nil && sec.Owner == U2 {
-				own = true
+			if sec := st.Pre.Truth.ByVal("rm", o.CookBefore["rm"]); !own && sec != nil && sec.Owner == U2 {
+				// the bystander's own cookie is being used: its token is replaced by a fresh one, nothing more
+				own = len(st.Post.DB.Tokens[U2]) == len(st.Pre.DB.Tokens[U2]) && reflect.DeepEqual(st.Pre.DB.Users[U2], st.Post.DB.Users[U2])
 			}
 		}
 		if !own {
